@@ -4,14 +4,14 @@
 (a check that was strengthened after a miss is re-run)."""
 import json, os, re, sys, glob
 V = os.path.dirname(os.path.dirname(os.path.abspath(__file__)))
-logs = sys.argv[1:] or [os.path.join(V, '.run/logs/mut_results.txt'), os.path.join(V, '.run/logs/mut_results2.txt')]
+logs = sys.argv[1:] or [os.path.join(V, '.run/logs', n) for n in ('mut_results.txt', 'mut_results2.txt', 'mut_results3.txt', 'mut_results4.txt', 'mut_regress.txt')]
 res, hist = {}, {}
 lines = []
 for log in logs:
     if os.path.exists(log):
         lines += open(log, errors='replace').read().split('\n')
 for line in lines:
-    m = re.match(r'^(\S+-[abcdef]|self-\S+) (C\d\d) rc=(\d+)\s*(?:VIOLATION \S+ \S+\s+fingerprint: (.*?)\s+cases: (\d+))?', line)
+    m = re.match(r'^(\S+-[a-h]|self-\S+) (C\d\d) rc=(\d+)\s*(?:VIOLATION \S+ \S+\s+fingerprint: (.*?)\s+cases: (\d+))?', line)
     if not m:
         continue
     seed, chk, rc, fp, n = m.groups()
@@ -45,7 +45,8 @@ with open(os.path.join(V, 'seeded', 'RESULTS.md'), 'w') as f:
             'Each change was produced by an independent sub-agent that saw only the property text and a scratch worktree, passes the\n'
             'project\'s own test suite (`confirm.txt` in each directory), and was run against the quick tier of the listed checks with\n'
             '`tools/mutcheck.sh` (scratch worktree, never /repo).  "after strengthening" = the first run of that check missed it and\n'
-            'the check was extended (see DESIGN.md section 7).\n\n'
+            'the check was extended (see DESIGN.md section 7).  The last line of the logs is a regression run of every change against\n'
+            'the final checks (own property).\n\n'
             '| seed | change | own property\'s check | also reported by | note |\n|---|---|---|---|---|\n')
     f.write('\n'.join(rows) + '\n')
 n_own = sum(1 for s, o in out.items() if s.split('-')[0] in o['caught_by'])
